@@ -85,6 +85,13 @@ CHECKS['C01'] = {
     'technique': 'TLA+ exact lag-domain definition + TLC enumeration + state replay with x=y/w; TLC-validated observation events',
 }
 
+CHECKS['C20'] = {
+    'text': 'Windows.tla: exact closed forms (fixed-point cosine sums with the rational values of cos(2 pi j/M), M in {1,2,3,4,6}; polynomial/rational windows for every N) for 15 classical windows and their parameters, with symmetry / max<=1 / centre=1 checked by TLC on the exact samples; every state replayed into create_window, the window_* function and the Window object for every alias. WindowFactory.tla: the 29 names, alias classes and documented parameters as a decision table, every (name, keyword) pair replayed (accept / reject, forwarded exactly, parameter has an effect, aliases identical, Window object consistent). ObsC20.tla: generic clauses for all 29 names, all N in 1..512 and sampled N up to 16384 with random shape parameters (samples quantised to 1e-6 for N<=64, measured summaries above).',
+    'design_ref': 'DESIGN.md 3/C20',
+    'note': 'Closed forms are not decided for the transcendental windows (kaiser, gaussian, chebwin, poisson, lanczos, riemann, bohman, taylor, poisson_hanning): only the generic clauses and the factory table apply to them. The periodic flat-top mode is exempt from symmetry.',
+    'technique': 'TLA+ exact closed forms + decision table enumerated by TLC and replayed; TLC-validated observation events',
+}
+
 NOT_APPLICABLE = {
     'C18': 'Slepian tapers: irrational eigenproblem solved in C; no exact finite model exists and quantised re-verification would make Python the oracle (a different technique). DESIGN.md section 4.',
 }
